@@ -22,10 +22,8 @@ import (
 )
 
 type c12Batch struct {
-	Cases []schemaCase `json:"cases"`
+	Cases []c12Case `json:"cases"`
 }
-
-var c12Output = e2.OutputSpec{Types: true, Go: &e2.GoFlags{JSON: true}, JSONSchema: true, OpenAPI: true}
 
 // emitted is one schema document cog wrote.
 type c12Emitted struct {
@@ -449,6 +447,14 @@ func (w *c12Walker) walk(t smodel.T, n map[string]any, path string) {
 		}
 		if len(branches) != len(t.Branches) {
 			w.report(w.sig("union-branches-altered", t.Kind), fmt.Sprintf("%s: %d branches in the source, emitted %s", path, len(t.Branches), short80(n)))
+		} else {
+			// collections (of anonymous structs) as branches: compared one by one,
+			// in the order of the source
+			for i, b := range t.Branches {
+				if bn := asMap(branches[i]); bn != nil && (b.Kind == smodel.KArray || b.Kind == smodel.KMap || b.Kind == smodel.KStruct) {
+					w.walk(b, bn, fmt.Sprintf("%s|%d", path, i))
+				}
+			}
 		}
 	}
 }
@@ -462,43 +468,195 @@ func keysOfAny(m map[string]any) []string {
 	return out
 }
 
+// c12IRObject is what the IR says of one object: its struct fields and, per
+// field ("" for an object that is no struct), the names of the fields of the
+// anonymous structs nested below it (through lists, maps, unions).
+type c12IRObject struct {
+	fields []string
+	nested map[string][]string
+}
+
+func c12NestedFieldNames(t ast.Type, out *[]string) {
+	switch {
+	case t.Struct != nil:
+		for _, f := range t.Struct.Fields {
+			*out = append(*out, f.Name)
+			c12NestedFieldNames(f.Type, out)
+		}
+	case t.Array != nil:
+		c12NestedFieldNames(t.Array.ValueType, out)
+	case t.Map != nil:
+		c12NestedFieldNames(t.Map.ValueType, out)
+	case t.Disjunction != nil:
+		for _, b := range t.Disjunction.Branches {
+			c12NestedFieldNames(b, out)
+		}
+	case t.Intersection != nil:
+		for _, b := range t.Intersection.Branches {
+			c12NestedFieldNames(b, out)
+		}
+	}
+}
+
 // c12IRNames lists, per package, the object names and struct field names of
-// the IR cog parsed.
-func c12IRNames(schemas ast.Schemas) map[string]map[string][]string {
-	out := map[string]map[string][]string{}
+// the IR cog parsed (after the transformations of the run).
+func c12IRNames(schemas ast.Schemas) map[string]map[string]c12IRObject {
+	out := map[string]map[string]c12IRObject{}
 	for _, s := range schemas {
-		out[s.Package] = map[string][]string{}
+		if out[s.Package] == nil {
+			out[s.Package] = map[string]c12IRObject{}
+		}
 		s.Objects.Iterate(func(_ string, o ast.Object) {
-			var fields []string
+			obj := c12IRObject{nested: map[string][]string{}}
 			if o.Type.IsStruct() {
 				for _, f := range o.Type.Struct.Fields {
-					fields = append(fields, f.Name)
+					obj.fields = append(obj.fields, f.Name)
+					var nested []string
+					c12NestedFieldNames(f.Type, &nested)
+					obj.nested[f.Name] = nested
 				}
+			} else {
+				var nested []string
+				c12NestedFieldNames(o.Type, &nested)
+				obj.nested[""] = nested
 			}
-			out[s.Package][o.Name] = fields
+			out[s.Package][o.Name] = obj
 		})
 	}
 	return out
 }
 
-func c12CheckBatch(run *vlib.Run, cases []schemaCase) (map[int][]vlib.Violation, error) {
+// c12PropNames collects every property name declared below a node of an
+// emitted document (references are not followed).
+func c12PropNames(node any, out map[string]bool) {
+	switch x := node.(type) {
+	case map[string]any:
+		for k, v := range x {
+			if props, ok := v.(map[string]any); ok && k == "properties" {
+				for name, sub := range props {
+					out[name] = true
+					c12PropNames(sub, out)
+				}
+				continue
+			}
+			c12PropNames(v, out)
+		}
+	case []any:
+		for _, e := range x {
+			c12PropNames(e, out)
+		}
+	}
+}
+
+// c12Refs collects every `$ref` of a document with the place it occurs at.
+func c12Refs(node any, at string, out map[string]string) {
+	switch x := node.(type) {
+	case map[string]any:
+		for k, v := range x {
+			if ref, ok := v.(string); ok && k == "$ref" {
+				if _, seen := out[ref]; !seen || at < out[ref] {
+					out[ref] = at
+				}
+				continue
+			}
+			c12Refs(v, at+"/"+k, out)
+		}
+	case []any:
+		for i, e := range x {
+			c12Refs(e, fmt.Sprintf("%s/%d", at, i), out)
+		}
+	}
+}
+
+// c12Resolves tells whether a local reference (#/a/b) designates something.
+func c12Resolves(root any, ref string) bool {
+	if ref == "#" {
+		return true
+	}
+	if !strings.HasPrefix(ref, "#/") {
+		return false
+	}
+	cur := root
+	for _, seg := range strings.Split(strings.TrimPrefix(ref, "#/"), "/") {
+		if un, err := url.PathUnescape(seg); err == nil {
+			seg = un
+		}
+		seg = strings.NewReplacer("~1", "/", "~0", "~").Replace(seg)
+		switch c := cur.(type) {
+		case map[string]any:
+			next, ok := c[seg]
+			if !ok {
+				return false
+			}
+			cur = next
+		case []any:
+			var idx int
+			if _, err := fmt.Sscanf(seg, "%d", &idx); err != nil || idx < 0 || idx >= len(c) {
+				return false
+			}
+			cur = c[idx]
+		default:
+			return false
+		}
+	}
+	return true
+}
+
+// c12RefPlace names where a dangling reference sits: the document root, or
+// inside the definitions.
+func c12RefPlace(at string) string {
+	if at == "" {
+		return "root"
+	}
+	return "definition"
+}
+
+// c12CompileRoot compiles the emitted JSON Schema as a whole (the root schema,
+// not only its definitions one by one) with the independent loader.
+func c12CompileRoot(text string) error {
+	comp := jsonschema.NewCompiler()
+	comp.Draft = jsonschema.Draft7
+	if err := comp.AddResource("mem://emitted.json", strings.NewReader(text)); err != nil {
+		return err
+	}
+	_, err := comp.Compile("mem://emitted.json")
+	return err
+}
+
+func c12LoaderClass(err error) string {
+	msg := err.Error()
+	switch {
+	case strings.Contains(msg, "cannot unmarshal number into field Schema.exclusiveM"):
+		return "numeric-exclusive-bound"
+	case strings.Contains(msg, "extra sibling fields: [const]"):
+		return "const-keyword"
+	case strings.Contains(msg, "not found") || strings.Contains(msg, "resolv") || strings.Contains(msg, "bad data in"):
+		return "unresolved-ref"
+	}
+	return "invalid"
+}
+
+func c12CheckBatch(run *vlib.Run, cases []c12Case) (map[int][]vlib.Violation, error) {
 	out := map[int][]vlib.Violation{}
-	p, err := e2Prepare(run, "c12", cases, c12Output)
+	p, err := c12Prepare(run, cases)
 	if err != nil {
 		return nil, err
 	}
 	defer p.Close()
 	type docRef struct {
 		caseIdx, docIdx int
+		def             string // the definition's name after the transformations
+		assigned        bool   // value built by field assignment (probe), not by the generated decoder
 	}
 	var reqs []e2.Request
 	var refs []docRef
 	emitted := map[int]map[string]*c12Emitted{} // case -> kind/pkg -> document
 	validators := map[int]map[string]*smodel.Validator{}
 	for i, c := range cases {
-		if !p.usable[i] {
+		if !p.generated[i] {
 			continue
 		}
+		eff := p.eff[i]
 		f := string(c.Format)
 		add := func(sig string, format string, args ...any) {
 			out[i] = append(out[i], vlib.V(sig, "%s schema: "+format, append([]any{c.Format}, args...)...))
@@ -509,13 +667,15 @@ func c12CheckBatch(run *vlib.Run, cases []schemaCase) (map[int][]vlib.Violation,
 		if c.SplitPkg != "" {
 			pkgs = append(pkgs, c.SplitPkg)
 		}
-		// the IR cog parsed (names)
-		var irNames map[string]map[string][]string
-		if pl, perr := e2.NewPipeline(workDir("c12ir"), "x", c.inputs(), e2.OutputSpec{}); perr == nil {
+		// the IR cog parsed and transformed (names), loaded by a pipeline of its own
+		var irNames map[string]map[string]c12IRObject
+		irWork := workDir("c12ir")
+		if pl, perr := e2.NewPipeline(irWork, "x", c.pipelineInputs(), e2.OutputSpec{CommonPasses: c.outputSpec("x").CommonPasses}); perr == nil {
 			if schemas, lerr := e2.LoadSchemas(pl); lerr == nil {
 				irNames = c12IRNames(schemas)
 			}
 		}
+		removeAll(irWork)
 		for _, pkg := range pkgs {
 			for _, kind := range []string{"jsonschema", "openapi"} {
 				e, ok := c12FindEmitted(p.files[i], pkg, kind)
@@ -529,6 +689,18 @@ func c12CheckBatch(run *vlib.Run, cases []schemaCase) (map[int][]vlib.Violation,
 				}
 				emitted[i][kind+"/"+pkg] = e
 				count(run, "emitted_documents", 1)
+				// (0) every $ref designates something in the document (own resolver:
+				// the loaders stop at the first thing they dislike)
+				docRefs := map[string]string{}
+				c12Refs(e.root, "", docRefs)
+				for _, ref := range sortedKeys(docRefs) {
+					if run != nil {
+						run.Eval(vlib.HashBytes([]byte(c.source()), []byte(kind), []byte(ref), []byte(strings.Join(c.order(), ","))), "ref:"+kind)
+					}
+					if !c12Resolves(e.root, ref) {
+						add("dangling-ref:"+kind+":from-"+f+":"+c12RefPlace(docRefs[ref]), "%s.%s.json: the $ref %q (at %s) designates nothing in the document (definitions: %v; order of the outputs: %v; passes: %v)", pkg, kind, ref, docRefs[ref]+"/$ref", e.defNames(), c.order(), c.Passes)
+					}
+				}
 				// (1) independent loader
 				format := smodel.JSONSchema
 				if kind == "openapi" {
@@ -536,17 +708,15 @@ func c12CheckBatch(run *vlib.Run, cases []schemaCase) (map[int][]vlib.Violation,
 				}
 				v, verr := smodel.NewValidatorFor(format, e.defNames(), e.text)
 				if verr != nil {
-					cls := "invalid"
-					if strings.Contains(verr.Error(), "cannot unmarshal number into field Schema.exclusiveM") {
-						cls = "numeric-exclusive-bound"
-					} else if strings.Contains(verr.Error(), "extra sibling fields: [const]") {
-						cls = "const-keyword"
-					} else if strings.Contains(verr.Error(), "not found") || strings.Contains(verr.Error(), "resolv") || strings.Contains(verr.Error(), "bad data in") {
-						cls = "unresolved-ref"
-					}
-					add("emitted-invalid:"+kind+":from-"+f+":"+cls, "the independent loader refuses %s.%s.json: %s", pkg, kind, firstLine(verr.Error()))
+					add("emitted-invalid:"+kind+":from-"+f+":"+c12LoaderClass(verr), "the independent loader refuses %s.%s.json: %s", pkg, kind, firstLine(verr.Error()))
 				} else {
 					validators[i][kind+"/"+pkg] = v
+					if kind == "jsonschema" {
+						// ... and the document as a whole (its root schema), not only its definitions
+						if rerr := c12CompileRoot(e.text); rerr != nil {
+							add("emitted-invalid:"+kind+":from-"+f+":"+c12LoaderClass(rerr), "the independent loader refuses the root schema of %s.%s.json: %s", pkg, kind, firstLine(rerr.Error()))
+						}
+					}
 				}
 				// (2) cog's own parser
 				work := workDir("c12back")
@@ -568,26 +738,44 @@ func c12CheckBatch(run *vlib.Run, cases []schemaCase) (map[int][]vlib.Violation,
 					}
 				}
 				removeAll(work)
-				// (3) names: IR objects and fields, model definitions
-				for obj, fields := range irNames[pkg] {
+				// (3) names: IR objects and fields (also those of nested anonymous structs)
+				for _, obj := range sortedKeys(irNames[pkg]) {
+					ir := irNames[pkg][obj]
 					def := asMap(e.defs[obj])
 					if def == nil {
-						add("ir-object-missing:"+kind+":from-"+f, "IR object %s.%s has no definition of that name in %s.%s.json (definitions: %v)", pkg, obj, pkg, kind, e.defNames())
+						add("ir-object-missing:"+kind+":from-"+f, "IR object %s.%s has no definition of that name in %s.%s.json (definitions: %v; passes: %v)", pkg, obj, pkg, kind, e.defNames(), c.Passes)
 						continue
 					}
 					props := asMap(def["properties"])
-					for _, fl := range fields {
+					for _, fl := range ir.fields {
 						if _, ok := props[fl]; !ok {
 							add("ir-field-missing:"+kind+":from-"+f, "IR field %s.%s.%s is not a property of the emitted definition (properties: %v)", pkg, obj, fl, keysOfAny(props))
+							continue
+						}
+						below := map[string]bool{}
+						c12PropNames(props[fl], below)
+						for _, nested := range ir.nested[fl] {
+							if !below[nested] {
+								add("ir-field-missing:"+kind+":from-"+f+":nested", "IR field %s.%s.%s holds an anonymous struct with a field %q, which is no property below the emitted %s (order of the outputs: %v)", pkg, obj, fl, nested, short80(props[fl]), c.order())
+							}
+						}
+					}
+					if nested := ir.nested[""]; len(nested) > 0 {
+						below := map[string]bool{}
+						c12PropNames(def, below)
+						for _, name := range nested {
+							if !below[name] {
+								add("ir-field-missing:"+kind+":from-"+f+":nested", "IR object %s.%s holds an anonymous struct with a field %q, which is no property below the emitted %s (order of the outputs: %v)", pkg, obj, name, short80(def), c.order())
+							}
 						}
 					}
 				}
-				// (4) carry-over, against the source model
-				w := &c12Walker{m: c.Model, e: e, in: c.Format, report: func(sig, msg string) {
+				// (4) carry-over, against the source model as the passes leave it
+				w := &c12Walker{m: eff.Model, e: e, in: c.Format, report: func(sig, msg string) {
 					out[i] = append(out[i], vlib.V(sig, "%s schema, %s.%s.json: %s", c.Format, pkg, kind, msg))
 				}}
-				for _, d := range c.Model.Defs {
-					if c.pkgOf(d.Name) != pkg {
+				for _, d := range eff.Model.Defs {
+					if eff.Pkg[d.Name] != pkg {
 						continue
 					}
 					_, def, ok := e.defFor(d.Name)
@@ -596,7 +784,7 @@ func c12CheckBatch(run *vlib.Run, cases []schemaCase) (map[int][]vlib.Violation,
 							count(run, "jsonschema_definition_not_reachable_from_root", 1)
 							continue
 						}
-						add("definition-missing:"+kind+":from-"+f, "definition %s of the source is not in %s.%s.json (definitions: %v)", d.Name, pkg, kind, e.defNames())
+						add("definition-missing:"+kind+":from-"+f, "definition %s of the source is not in %s.%s.json (definitions: %v; passes: %v)", d.Name, pkg, kind, e.defNames(), c.Passes)
 						continue
 					}
 					if run != nil {
@@ -606,18 +794,25 @@ func c12CheckBatch(run *vlib.Run, cases []schemaCase) (map[int][]vlib.Violation,
 				}
 			}
 		}
-		// (5) Go-encoded values
+		// (5) Go values: decoded by the generated decoder, and built by assignment
+		if !p.usable[i] {
+			continue // the Go tree does not compile (C02's matter): only the documents were judged
+		}
 		for j, d := range c.Docs {
-			key, ok := p.goKey(i, d.Def)
-			if !ok {
-				continue
-			}
 			if err := p.validators[i].Validate(d.Def, d.JSON); err != nil {
 				count(run, "generator_oracle_mismatch:document", 1)
 				continue
 			}
-			reqs = append(reqs, e2.Request{ID: len(reqs), Key: key, Op: "roundtrip", Doc: d.JSON})
-			refs = append(refs, docRef{i, j})
+			for _, name := range eff.Names[d.Def] {
+				if key, ok := p.goKey(i, name); ok {
+					reqs = append(reqs, e2.Request{ID: len(reqs), Key: key, Op: "roundtrip", Doc: d.JSON})
+					refs = append(refs, docRef{i, j, name, false})
+				}
+				if key, ok := p.probeKey(i, name); ok {
+					reqs = append(reqs, e2.Request{ID: len(reqs), Key: key, Op: "roundtrip", Doc: d.JSON})
+					refs = append(refs, docRef{i, j, name, true})
+				}
+			}
 		}
 	}
 	if len(reqs) > 0 {
@@ -627,32 +822,43 @@ func c12CheckBatch(run *vlib.Run, cases []schemaCase) (map[int][]vlib.Violation,
 		}
 		for k, r := range resps {
 			i, j := refs[k].caseIdx, refs[k].docIdx
-			c, d := cases[i], cases[i].Docs[j]
+			c, d, eff := cases[i], cases[i].Docs[j], p.eff[i]
+			def := refs[k].def
+			how := "decoded"
+			if refs[k].assigned {
+				how = "assigned"
+			}
 			if r.Panic != "" || r.StdErr != "" || r.EncodeErr != "" || r.Encoded == "" {
-				count(run, "documents_go_does_not_decode", 1) // C01's matter
+				if refs[k].assigned {
+					count(run, "values_not_assignable", 1) // the probe does not know the shape
+					note(run, "probe: %s", firstLine(r.StdErr+r.Panic+r.EncodeErr))
+				} else {
+					count(run, "documents_go_does_not_decode", 1) // C01's matter
+				}
 				continue
 			}
 			count(run, "documents", 1)
+			count(run, "go_values:"+how, 1)
 			count(run, "disagreements_checked", 1)
-			pkg := c.pkgOf(d.Def)
+			pkg := eff.Pkg[def]
 			for _, kind := range []string{"jsonschema", "openapi"} {
 				v := validators[i][kind+"/"+pkg]
 				e := emitted[i][kind+"/"+pkg]
 				if v == nil || e == nil {
 					continue
 				}
-				if _, _, ok := e.defFor(d.Def); !ok {
+				if _, _, ok := e.defFor(def); !ok {
 					continue
 				}
 				if run != nil {
-					run.Eval(vlib.HashBytes([]byte(c.source()), []byte(r.Encoded), []byte(kind)), "go-value:"+kind, "from:"+string(c.Format))
+					run.Eval(vlib.HashBytes([]byte(c.source()), []byte(def), []byte(r.Encoded), []byte(kind), []byte(how)), "go-value:"+kind, "from:"+string(c.Format), "value:"+how)
 					run.Label(prefixAll("doc:", d.Features)...)
 				}
-				if verr := v.Validate(d.Def, r.Encoded); verr != nil {
+				if verr := v.Validate(def, r.Encoded); verr != nil {
 					// one violation per reason (a document can be rejected for several)
-					for _, cls := range rejectionClasses(c.Model, d.Def, r.Encoded, verr) {
+					for _, cls := range rejectionClasses(eff.Model, def, r.Encoded, verr) {
 						out[i] = append(out[i], vlib.V(fmt.Sprintf("go-value-rejected:%s:from-%s:%s", kind, c.Format, cls),
-							"%s schema, definition %s: the Go encoding %s (of document %s) is rejected by the emitted %s.%s.json [%s]: %s", c.Format, d.Def, r.Encoded, d.JSON, pkg, kind, cls, strings.ReplaceAll(verr.Error(), "\n", " | ")))
+							"%s schema, definition %s: the Go encoding %s (value %s from document %s; Go flags %+v) is rejected by the emitted %s.%s.json [%s]: %s", c.Format, def, r.Encoded, how, d.JSON, c.goFlags(), pkg, kind, cls, strings.ReplaceAll(verr.Error(), "\n", " | ")))
 					}
 				}
 			}
@@ -680,14 +886,124 @@ func c12GenConfig(f smodel.Format) smodel.GenConfig {
 	return cfg
 }
 
+// drawC12Case draws a schema case and the configuration of its run.
+func drawC12Case(rt *rapid.T) c12Case {
+	f := rapid.SampledFrom(smodel.Formats).Draw(rt, "format")
+	sc := drawSchemaCase(rt, c12GenConfig(f), 2)
+	if f == smodel.OpenAPI && sc.SplitPkg == "" && rapid.Bool().Draw(rt, "split") {
+		drawSplit(rt, &sc)
+	}
+	c := c12Case{schemaCase: sc}
+	// unions with a collection of anonymous structs as a branch (the shared
+	// generator only has unions of scalars and of references)
+	if rapid.IntRange(0, 2).Draw(rt, "unionshapes") != 0 {
+		added, excluded := c12AddUnionShapes(rt, c.Model)
+		c.Excluded = append(c.Excluded, excluded...)
+		if added > 0 {
+			c.Docs = nil
+			for _, def := range c.Model.DocDefs() {
+				for k := 0; k < 2; k++ {
+					c.Docs = append(c.Docs, smodel.DrawDoc(rt, c.Model, def))
+				}
+			}
+		}
+	}
+	// the Go output's configuration
+	flag := func(name string, oneIn int) bool { return rapid.IntRange(0, oneIn-1).Draw(rt, name) == 0 }
+	c.Go = &e2.GoFlags{JSON: true, SkipRuntime: flag("go.skip_runtime", 3), Strict: flag("go.strict", 4), Equal: flag("go.equal", 4), Validate: flag("go.validate", 4), AnyAsInterface: flag("go.any_as_interface", 4)}
+	if c.Model.HasBytes() && (c.Go.Strict || c.Go.Equal || c.Go.Validate) {
+		// the generated Equals / Validate / strict decoder of a `bytes` field do
+		// not compile (listed under C02): such a case would only be counted as
+		// uncompilable. Excluded by construction, counted.
+		c.Go.Strict, c.Go.Equal, c.Go.Validate = false, false, false
+		c.Excluded = append(c.Excluded, "go.strict/equal/validate-with-bytes-field")
+	}
+	// sibling languages and the order of the outputs
+	if flag("siblings", 3) {
+		for _, s := range c12SiblingPool {
+			if rapid.Bool().Draw(rt, "sibling."+s) {
+				c.Siblings = append(c.Siblings, s)
+			}
+		}
+	}
+	c.Order = rapid.Permutation(append(append([]string{}, c12Required...), c.Siblings...)).Draw(rt, "order")
+	// object-level transformations
+	if flag("passes", 2) {
+		drawC12Passes(rt, &c)
+	}
+	return c
+}
+
+func c12Labels(c c12Case) []string {
+	var out []string
+	g := c.goFlags()
+	for name, on := range map[string]bool{"go.skip_runtime": g.SkipRuntime, "go.strict": g.Strict, "go.equal": g.Equal, "go.validate": g.Validate, "go.any_as_interface": g.AnyAsInterface} {
+		if on {
+			out = append(out, name)
+		}
+	}
+	pos := map[string]int{}
+	for i, l := range c.order() {
+		pos[l] = i
+	}
+	for _, target := range []string{"jsonschema", "openapi"} {
+		var before []string
+		for l, i := range pos {
+			if l != "jsonschema" && l != "openapi" && i < pos[target] {
+				before = append(before, l)
+			}
+		}
+		sort.Strings(before)
+		for _, l := range before {
+			out = append(out, l+"-before-"+target)
+		}
+	}
+	entryNow := c.Model.Entry
+	for _, p := range c.Passes {
+		label := "pass:" + p.Kind
+		if p.Object == entryNow {
+			label += ":on-entry"
+			if p.Kind == "rename_object" {
+				entryNow = p.To
+			}
+		}
+		out = append(out, label)
+	}
+	if len(c.Passes) > 0 {
+		out = append(out, map[bool]string{true: "passes:common", false: "passes:input"}[c.PassesCommon])
+	}
+	for _, d := range c.Model.Defs {
+		for _, f := range d.Type.Fields {
+			if f.Type.Kind != smodel.KUScalars {
+				continue
+			}
+			for _, b := range f.Type.Branches {
+				if (b.Kind == smodel.KArray || b.Kind == smodel.KMap) && b.Elem != nil {
+					inner := *b.Elem
+					if inner.Kind == smodel.KArray && inner.Elem != nil {
+						inner = *inner.Elem
+					}
+					if inner.Kind == smodel.KStruct {
+						out = append(out, "union-branch:"+b.Kind+"-of-anonymous-struct")
+					}
+				}
+			}
+		}
+	}
+	sort.Strings(out)
+	return out
+}
+
 func TestC12(t *testing.T) {
 	run := vlib.Begin(t, "C12")
 	defer run.Finish(t)
 	run.Describe(
-		"Batches of K schema models (K=6 quick, 12 thorough) per rapid case in the three input formats, dense in constraints, enums, constants, defaults, nullable fields, maps, unions; half of the OpenAPI cases are split into TWO packages (the entry package refers across files to the definitions moved to the second one, which refer to each other: cross-package chains of depth >= 2). cog generates jsonschema + openapi + Go(json). Oracles: (1) every emitted *.jsonschema.json compiles under santhosh draft-07 for every definition (all $ref resolve) and every *.openapi.json loads and validates under kin-openapi; (2) cog's own parsers accept them; (3) every IR object / struct field and every source definition / property appears under its own name; (4) required sets, numeric and length bounds, enum values (in order), constants and defaults extracted from the emitted JSON equal the source model's, nullability is expressed; (5) every valid-by-construction document, decoded and re-encoded by the COMPILED generated Go type, validates against the emitted definition of that object in both documents. Non-trivial: every (schema, definition, emitted document) comparison and every (schema, Go-encoded value, emitted document) validation.",
+		"Batches of K cases (K=6 quick, 12 thorough) per rapid case. A case is a schema model in one of the three input formats, dense in constraints, enums, constants, defaults, nullable fields, maps, unions; two thirds of the models also get unions one branch of which is a list / map (/ map of lists) of ANONYMOUS structs; half of the OpenAPI cases are split into TWO packages (cross-package chains of depth >= 2). Each case carries the configuration of its run: the Go output's flags (json always; skip_runtime 1/3, strict / equal / validate / any_as_interface 1/4 each; a skip_runtime tree is completed with the runtime package of the same configuration), sibling languages generated in the same run (types of python / java / typescript / php, 1/3 of the cases), the ORDER in which the output languages are processed (a drawn permutation: Pipeline.Run ranges over a map, every order is one of its behaviours; the check runs the same steps as Pipeline.Run in that order), and in half of the cases 1-3 object-level transformations (rename_object - a third of them aimed at the entry point, some towards the package's own name -, duplicate_object, schema_set_entry_point) given as a transformation file of the input or as common passes. The expected model is the source model with those passes applied. cog generates jsonschema + openapi + Go. Oracles: (0) every `$ref` of every emitted document, the root one included, designates something in that document (own resolver); (1) every emitted *.jsonschema.json compiles under santhosh draft-07, definition by definition AND as a whole (root schema), every *.openapi.json loads and validates under kin-openapi; (2) cog's own parsers accept them; (3) every object of the IR (as the transformations leave it, loaded by a pipeline of its own) and every struct field appears under its own name, and so do the fields of the anonymous structs nested below a field (through lists, maps, unions); every definition / property of the expected model too; (4) required sets, numeric and length bounds, enum values (in order), constants and defaults extracted from the emitted JSON equal the expected model's, nullability is expressed, union branches are compared one by one; (5) for every valid-by-construction document and every name the object goes by (renamed, duplicated), TWO values of the COMPILED generated Go type are encoded with encoding/json and validated against the emitted definition of that object in both documents: the value the generated decoder makes of the document, and the value built by FIELD ASSIGNMENT from the document (a reflective overlay added to the generated package: struct fields by json tag, the branch of a union struct chosen by the JSON value's shape and the variants' constants; no generated decoder involved). Non-trivial: every (schema, $ref, order), every (schema, definition, emitted document) comparison and every (schema, Go value, how it was built, emitted document) validation.",
 		"documents are valid by construction for the source schema (reference validator precondition)",
 		"JSON Schema inputs: cog only declares what the root $ref reaches; unreachable definitions are not expected in the output",
-		"a document the Go type does not decode is C01's matter (counted)",
+		"a document the generated decoder does not decode is C01's matter (counted); a value the overlay cannot assign (shape it does not know) is counted, not judged",
+		"a sibling language that refuses the schema is skipped (counted); the run goes on with the others, as far as the three judged outputs are concerned",
+		"the transformations drawn only rename / duplicate / designate objects: the documents of the source schema stay the documents of the transformed one",
 	)
 	if vlib.RunReplay(t, run, c12Check) {
 		return
@@ -697,14 +1013,9 @@ func TestC12(t *testing.T) {
 		k = 12
 	}
 	rapid.Check(t, func(rt *rapid.T) {
-		var cases []schemaCase
+		var cases []c12Case
 		for i := 0; i < k; i++ {
-			f := rapid.SampledFrom(smodel.Formats).Draw(rt, "format")
-			c := drawSchemaCase(rt, c12GenConfig(f), 2)
-			if f == smodel.OpenAPI && c.SplitPkg == "" && rapid.Bool().Draw(rt, "split") {
-				drawSplit(rt, &c)
-			}
-			cases = append(cases, c)
+			cases = append(cases, drawC12Case(rt))
 		}
 		res, err := c12CheckBatch(run, cases)
 		if err != nil {
@@ -714,16 +1025,20 @@ func TestC12(t *testing.T) {
 		for i, c := range cases {
 			run.Label(c.Model.Features()...)
 			run.Label("input:" + string(c.Format))
+			run.Label(c12Labels(c)...)
+			for _, x := range c.Excluded {
+				run.Count("excluded:"+x, 1)
+			}
 			if c.SplitPkg != "" {
 				run.Label("two-packages")
 			}
 			if i == 0 && len(c.source()) < 2500 {
-				run.Sample(map[string]any{"format": c.Format, "schema": c.source(), "split": c.Moved})
+				run.Sample(map[string]any{"format": c.Format, "schema": c.source(), "split": c.Moved, "go": c.goFlags(), "order": c.order(), "passes": c.Passes})
 			}
 		}
 		for i := range cases {
 			if vs := dedupeViolations(res[i]); len(vs) > 0 {
-				vlib.Fail(rt, run.Judge(c12Batch{Cases: []schemaCase{cases[i]}}, vs))
+				vlib.Fail(rt, run.Judge(c12Batch{Cases: []c12Case{cases[i]}}, vs))
 			}
 		}
 	})
